@@ -3508,7 +3508,7 @@ func PathRelativeToOutbase(
 		if avoidIndex && base == "index" {
 			_, base, _ = logger.PlatformIndependentPathDirBaseExt(dir)
 		}
-		baseName = sanitizeFilePathForVirtualModulePath(base)
+		baseName = avoidDotSegmentName(sanitizeFilePathForVirtualModulePath(base))
 		return
 	} else {
 		// Heuristic: If the file is named something like "index.js", then use
@@ -3572,7 +3572,22 @@ func PathRelativeToOutbase(
 		ext := fs.Ext(baseName)
 		baseName = baseName[:len(baseName)-len(ext)]
 	}
+
+	baseName = avoidDotSegmentName(baseName)
 	return
+}
+
+// The name is substituted into the path template, so it must never be a path
+// segment that leaves the output directory (e.g. for a file named "...txt",
+// which is ".." without its extension, with the template "[name]/[hash]")
+func avoidDotSegmentName(name string) string {
+	if name == ".." {
+		return "_.._"
+	}
+	if name == "." {
+		return "_._"
+	}
+	return name
 }
 
 func sanitizeFilePathForVirtualModulePath(path string) string {
